@@ -106,4 +106,4 @@ QUERIES = [
                                "uncached_masks": "subset per tier", "history_prefix": PREFIX, "failure_position": "every (cells,t)", "dag": "pointers symbolic"},
           outside=["None returned by an uncached cells (not rejected by modelx, see C09 notes)", "chains through ItemSpaces", "more than one earlier failure", "N > 3"]),
 ]
-BUDGET = {"quick": 400, "thorough": 2400}
+BUDGET = {"quick": 400, "thorough": 1200}
